@@ -10,7 +10,8 @@ Model: `MakoModel/Pipeline/Model.lean` – transcription of `create_filter_calla
 (mako/codegen.py), the key subtraction of `undeclared_identifiers` (mako/parsetree.py), `parse_until_text`,
 `match_expression` and the `+1` rule of `match_reg` (mako/lexer.py).  Regenerated into `Generated/Pipeline.lean`:
 `DEFAULT_ESCAPES`, the `Template` defaults of `default_filters` / `buffer_filters`, whether the call regex of
-`create_filter_callable` ends with `$` (`callRegexAnchored`), `str.isspace`.
+`create_filter_callable` ends with `$` (`callRegexAnchored`), the grouping facts of the argument re-emitter
+(`selfParenthesisingVisitors`, `operandWrappedKinds`, `operandUsers`; mako/_ast_util.py), `str.isspace`.
 Specification: `pipeline`, `nest`, `evalPipeline`, `Spec.wellLexed`, `Spec.firstTopLevel`.
 
 OPEN (findings of this property on the current tree): none – every theorem below is proved in full strength,
@@ -244,6 +245,20 @@ theorem resolve_call (ident args : Str) (hne : ident ≠ []) (hp : '(' ∉ ident
   rw [h]; simp [locateEncode, hd, hl]
 
 example : resolve "g('a|b')".toList = "g('a|b')".toList ∧ resolve "trim(1)".toList = "filters.trim(1)".toList := by
+  decide
+
+/-- A filter written as a call denotes that callable with the arguments AS WRITTEN, although the argument text is
+re-emitted from the parsed AST: on the regenerated facts about `SourceGenerator`, every kind of sub-expression that
+binds more weakly than some context – binary, boolean, comparison and unary operations, conditional expressions,
+lambdas – is written as one parenthesised group wherever it stands in an operand slot (its own visitor
+parenthesises, or `visit_operand` does), and every visitor with operand slots (operators, `.attr`, `[...]`, calls,
+`*args`, conditional expressions) writes them through `visit_operand`.  Removing the parentheses of one visitor
+breaks this obligation.  (That this mechanism makes the printed text of EVERY argument AST well-parenthesised is
+property C19's `print_well_parenthesised_partial` over the full printer model; C02 ties the printer to the code by
+correspondence and by the oracle, which evaluates the argument text as written and compares what the filter
+callable received.) -/
+theorem filter_call_arguments_keep_grouping :
+    (∀ k ∈ ArgKind.all, groupedInOperandSlot k = true) ∧ (∀ v ∈ operandParents, v ∈ operandUsers) := by
   decide
 
 /-! ## the built-in names are not template variables -/
